@@ -22,7 +22,10 @@ enum VsReason {
   VS_R_STALL = 8,      // injected stall
   VS_R_EXIT = 9,
   VS_R_NEIGHBOUR = 10, // neighbour-writer step (C10)
-  VS_R_G_ABORT = 11
+  VS_R_G_ABORT = 11,
+  VS_R_LOCK = 12,         // about to take a pthread mutex
+  VS_R_LOCK_BLOCKED = 13, // mutex / once owned by another simulated thread
+  VS_R_UNLOCK = 14
 };
 
 enum VsPolicy { VS_P_UNIFORM = 0, VS_P_PCT = 1, VS_P_STICKY = 2 };
@@ -47,8 +50,12 @@ void vs_calib_thread(int tid);
 uint64_t vs_entries_of(int tid);
 
 // ---- main side -----------------------------------------------------------
-// returns 0 all threads done, 1 deadlock, 2 step budget exceeded
+// returns 0 all threads done, 1 deadlock, 2 step budget exceeded, 3 stuck even when every thread runs freely
 int vs_run(void);
+int vs_used_freerun(void);              // the watchdog stopped serialising (a thread spun waiting for a parked one)
+void vs_set_watchdog_ms(long stuck_ms, long freerun_ms);
+long vs_lock_blocks(void);
+long vs_lock_ops(void);
 long vs_steps(void);
 uint64_t vs_event_hash(void);
 long vs_switches(void);
